@@ -183,6 +183,26 @@ sym_harness!(sym_rollback_1_2, { rollback_body(0, true) });
 sym_harness!(sym_rollback_2_2, { rollback_body(2, true) });
 sym_harness!(sym_rollback_redef_1, { rollback_body(1, false) });
 
+// The same name defined THREE times by successful evaluations (two shadowed slots), then a failed
+// evaluation that defines a symbolic name: the roll-back must restore the NEWEST surviving definition.
+sym_harness!(sym_rollback_redef_twice, {
+    let mut sm = SymbolMap::new();
+    let mut g = Ghost { cur: [None; NAMES] };
+    let _ = sm.add(&name(1));
+    let _ = sm.add(&name(1));
+    let s3 = sm.add(&name(1));
+    g.cur[0] = Some(s3);
+    let offset = sm.len();
+    let f1 = any_name();
+    let _ = sm.add(&name(f1));
+    sm.roll_back(offset);
+    kani::cover!(f1 == 1, "failed evaluation redefined the thrice-defined name");
+    kani::cover!(f1 == 2, "failed evaluation introduced a new name");
+    vassert!(sm.len() == offset, "roll-back left slots of the failed evaluation behind");
+    vassert!(agrees(&sm, &g), "after a failed evaluation a name no longer resolves as before it");
+    core::mem::forget(sm);
+});
+
 // Slot recycling: a shadowed slot that the recycler released is handed out again; the binding
 // in force for every other name is untouched, and the released slot is given to exactly one
 // new binding.
